@@ -347,46 +347,26 @@ func (rb *Buffer) ReadFrom(r io.Reader) (n int64, err error) {
 			rb.grow(rb.Buffered() + MinRead)
 		}
 
-		if rb.w >= rb.r {
-			m, err = r.Read(rb.buf[rb.w:])
-			if m < 0 {
-				panic("RingBuffer.ReadFrom: reader returned negative count from Read")
-			}
+		// Read into the contiguous free region that starts at w: up to the end
+		// of the buffer when the content is not wrapped, otherwise up to r.
+		free := rb.buf[rb.w:]
+		if rb.w < rb.r {
+			free = rb.buf[rb.w:rb.r]
+		}
+		m, err = r.Read(free)
+		if m < 0 {
+			panic("RingBuffer.ReadFrom: reader returned negative count from Read")
+		}
+		if m > 0 {
 			rb.isEmpty = false
 			rb.w = (rb.w + m) % rb.size
 			n += int64(m)
-			if err == io.EOF {
-				return n, nil
-			}
-			if err != nil {
-				return
-			}
-			m, err = r.Read(rb.buf[:rb.r])
-			if m < 0 {
-				panic("RingBuffer.ReadFrom: reader returned negative count from Read")
-			}
-			rb.w = (rb.w + m) % rb.size
-			n += int64(m)
-			if err == io.EOF {
-				return n, nil
-			}
-			if err != nil {
-				return
-			}
-		} else {
-			m, err = r.Read(rb.buf[rb.w:rb.r])
-			if m < 0 {
-				panic("RingBuffer.ReadFrom: reader returned negative count from Read")
-			}
-			rb.isEmpty = false
-			rb.w = (rb.w + m) % rb.size
-			n += int64(m)
-			if err == io.EOF {
-				return n, nil
-			}
-			if err != nil {
-				return
-			}
+		}
+		if err == io.EOF {
+			return n, nil
+		}
+		if err != nil {
+			return
 		}
 	}
 }
